@@ -1,6 +1,7 @@
 package httpserver
 
 import (
+	"bytes"
 	"crypto/tls"
 	"fmt"
 	"io"
@@ -48,9 +49,13 @@ func (a verifAddr) String() string  { return string(a) }
 type verifConn struct {
 	chunks [][]byte
 	remote string
+	point  func() // called before every Read (the E2 harness makes it a scheduling point)
 }
 
 func (c *verifConn) Read(b []byte) (int, error) {
+	if c.point != nil {
+		c.point()
+	}
 	if len(c.chunks) == 0 {
 		return 0, io.EOF
 	}
@@ -121,3 +126,76 @@ func VerifRecordHellos(conns [][][]byte, cfg *tls.Config) []string {
 	}
 	return out
 }
+
+// VerifOverlapHellos accepts the prologue connections one after the other
+// (each is handled to its end and closed), then the two connections of pair
+// at once: spawn starts one thread per connection, point is called before
+// every read from a connection. It returns what was recorded for each of the
+// two ("" if nothing), read after both have finished.
+func VerifOverlapHellos(prologue [][][]byte, pair [2][][]byte, cfg *tls.Config, spawn func(name string, f func()), point func()) [2]string {
+	inner := &verifListener{}
+	mk := func(chunks [][]byte, i int, pt func()) *verifConn {
+		cp := make([][]byte, len(chunks))
+		for j := range chunks {
+			cp[j] = append([]byte{}, chunks[j]...)
+		}
+		return &verifConn{chunks: cp, remote: fmt.Sprintf("192.0.2.7:%d", 5000+i), point: pt}
+	}
+	for i, chunks := range prologue {
+		inner.conns = append(inner.conns, mk(chunks, i, nil))
+	}
+	for t := 0; t < 2; t++ {
+		inner.conns = append(inner.conns, mk(pair[t], len(prologue)+t, point))
+	}
+	ln := newTLSListener(inner, cfg)
+	for range prologue {
+		c, err := ln.Accept()
+		if err != nil {
+			return [2]string{"accept failed", "accept failed"}
+		}
+		// as net/http's conn.serve does: plain HTTP on a TLS port is answered on the raw connection, which is then
+		// closed; the deferred close of the TLS connection follows
+		if err := c.(*tls.Conn).Handshake(); err != nil {
+			if re, ok := err.(tls.RecordHeaderError); ok && re.Conn != nil && bytes.HasPrefix(re.RecordHeader[:], []byte("GET /")) {
+				io.WriteString(re.Conn, "HTTP/1.0 400 Bad Request\r\n\r\nClient sent an HTTP request to an HTTPS server.\n")
+				re.Conn.Close()
+			}
+		}
+		c.Close()
+	}
+	var accepted [2]net.Conn
+	for t := 0; t < 2; t++ {
+		c, err := ln.Accept()
+		if err != nil {
+			return [2]string{"accept failed", "accept failed"}
+		}
+		accepted[t] = c
+	}
+	done := make([]bool, 2)
+	for t := 0; t < 2; t++ {
+		t := t
+		spawn(fmt.Sprintf("conn%d", t), func() {
+			_ = accepted[t].(*tls.Conn).Handshake()
+			done[t] = true
+		})
+	}
+	verifOverlapResult = func() [2]string {
+		var out [2]string
+		ln.helloInfosMu.RLock()
+		defer ln.helloInfosMu.RUnlock()
+		for t := 0; t < 2; t++ {
+			if !done[t] {
+				out[t] = "did not finish"
+			} else if info, ok := ln.helloInfos[fmt.Sprintf("192.0.2.7:%d", 5000+len(prologue)+t)]; ok {
+				out[t] = fmt.Sprintf("%+v", info)
+			}
+		}
+		return out
+	}
+	return [2]string{}
+}
+
+var verifOverlapResult func() [2]string
+
+// VerifOverlapResult reports what the last VerifOverlapHellos recorded, once its threads have finished.
+func VerifOverlapResult() [2]string { return verifOverlapResult() }
